@@ -54,6 +54,7 @@ type DBSpec struct {
 	Types       []int // pool indices used, all migrated
 	Programs    [][]Op
 	OrBase      bool
+	WatchdogSec int `json:",omitempty"` // 0 = 60: seconds after which a round is declared hung
 	SyncOps     int `json:",omitempty"` // the first SyncOps ops of every program start behind a common barrier (0 = 1: start barrier only)
 }
 
@@ -583,7 +584,7 @@ func runDB(spec DBSpec, dir string, serial bool) (obs DBObs) {
 		select {
 		case <-finished:
 			copy(obs.Results, results)
-		case <-time.After(60 * time.Second):
+		case <-time.After(time.Duration(watchdogSec(spec)) * time.Second):
 			obs.Hang = true
 			obs.HangInfo = hangDigest()
 			for g := range results { // the results completed so far (published by the atomic counter)
@@ -1131,4 +1132,11 @@ func genDB(r *lib.Rng, g int, cold, prep bool, thorough bool) DBSpec {
 		spec.Programs = append(spec.Programs, prog)
 	}
 	return spec
+}
+
+func watchdogSec(spec DBSpec) int {
+	if spec.WatchdogSec > 0 {
+		return spec.WatchdogSec
+	}
+	return 60
 }
